@@ -1,3 +1,4 @@
+import Proofs.Canon
 import Proofs.Invol
 import Proofs.Storage2
 
@@ -83,5 +84,24 @@ theorem grade_projection_in_storage_order (σ : Equiv.Perm (Bm n)) (b2i grade : 
     (h2 : ∀ c : Bm n, b2i c.val = (σ.symm c).val) (hg : ∀ i : Bm n, grade i.val = pc n (σ i).val) (g : Nat) (a : Array R) (i : Bm n) :
     (if grade i.val = g then a.getD i.val 0 else 0) = gpart n g (fun c : Bm n => a.getD (b2i c.val) 0) (σ i) :=
   Storage2.storage_gradeProj n σ b2i grade h2 hg g a i
+
+
+/-! ### the canonical definitions: under the isomorphism of the model with Mathlib's `CliffordAlgebra` (C01), the coded grade involution and
+reversion are Mathlib's `involute` (the algebra automorphism with `ι v ↦ −ι v`) and `reverse` (the anti-automorphism fixing `ι v`) -/
+section Canonical
+variable {R : Type} [CommRing R] {n : Nat} {sig : Nat → R}
+
+theorem grade_involution_is_mathlib_involute (x : CliffordAlgebra (Cl.Q n sig)) :
+    Cl.fromMathlib (CliffordAlgebra.involute x) = (gi n (Cl.fromMathlib x : Cl n sig) : Cl n sig) := Cl.fromMathlib_involute x
+
+theorem reversion_is_mathlib_reverse (x : CliffordAlgebra (Cl.Q n sig)) :
+    Cl.fromMathlib (CliffordAlgebra.reverse x) = (rev n (Cl.fromMathlib x : Cl n sig) : Cl n sig) := Cl.fromMathlib_reverse x
+
+/-- hence Clifford conjugation (`conjugate()` = reversion of the grade involution) is `reverse ∘ involute` -/
+theorem conjugation_is_mathlib (x : CliffordAlgebra (Cl.Q n sig)) :
+    Cl.fromMathlib (CliffordAlgebra.reverse (CliffordAlgebra.involute x)) = (rev n (gi n (Cl.fromMathlib x : Cl n sig)) : Cl n sig) := by
+  rw [reversion_is_mathlib_reverse, grade_involution_is_mathlib_involute]
+
+end Canonical
 
 end C04
